@@ -519,4 +519,52 @@ example : (run (fun _ => false) ex0 exRun).map
     (fun s => (s.stored, s.pc 0, s.pc 1, s.pc 2, s.contacted 1, s.contacted 2, s.issuedBy 0)) =
     some (some 1, .done true, .done true, .done true, false, false, 1) := by rfl
 
+/-! ### what H_lock is needed for: the stale-lock race of the file-system locker (finding D27)
+
+The theorems above are about the LTS whose `acq` needs `lock = none` and whose `expire` frees
+only a DEAD holder's lock — the contract H_lock of `Locker`. `FileStorage` departs from it in
+one documented situation (package comment; the file-lock model's example "Documented
+non-guarantee", `CM/Props/C08.lean`): a waiter that read the lock file while it was stale
+removes "it" after another waiter has already created its own — it takes the lock from a
+LIVE holder. Adding exactly that step refutes mutual exclusion, with the history the
+OS-process rig observed on the real code (leader killed inside the issuer, two waiters). -/
+
+/-- the racing take-over: `p` waits, a live `q` holds the lock, `p` takes it all the same -/
+def stealStep (s : St) (p : Nat) : Option St :=
+  match s.lock with
+  | some q =>
+    if s.pc p = .wantLock ∧ q ≠ p ∧ (s.pc q).inCS = true then
+      some { s with lock := some p, pc := upd s.pc p .recheck }
+    else none
+  | none => none
+
+/-- runs of the LTS extended with the racing take-over (`.inr p`) -/
+def runR (due : Ver → Bool) : St → List (Ev ⊕ Nat) → Option St
+  | s, [] => some s
+  | s, .inl e :: es => (step due s e).bind (fun s' => runR due s' es)
+  | s, .inr p :: es => (stealStep s p).bind (fun s' => runR due s' es)
+
+/-- three obtain requests on an empty store -/
+def exR0 : St := { ex0 with kind := fun _ => .obtain, async := fun _ => false }
+
+/-- request 0 leads and is killed inside the issuer; its lock goes stale and is taken over by
+request 1 (a legitimate `expire` + `acq`), which enters the issuer; request 2, which had seen
+the same stale file, takes the lock from the live request 1 and enters the issuer as well -/
+def exRace : List (Ev ⊕ Nat) :=
+  [.inl (.pre 0), .inl (.acq 0), .inl (.recheck 0), .inl (.issueBegin 0), .inl (.die 0),
+   .inl (.pre 1), .inl (.pre 2), .inl .expire, .inl (.acq 1), .inl (.recheck 1), .inl (.issueBegin 1),
+   .inr 2, .inl (.recheck 2), .inl (.issueBegin 2)]
+
+/-- **C01_mutex needs H_lock**: with the racing take-over two live requests are inside the
+issuer at once (known finding D27; compare `C01_mutex`, which excludes it for every run of the
+LTS proper) -/
+theorem C01_mutex_refuted_by_stale_race :
+    (runR (fun _ => false) exR0 exRace).map (fun s => (s.pc 0, s.pc 1, s.pc 2, s.lock)) =
+      some (.dead, .issuing, .issuing, some 2) := by rfl
+
+/-- … and the race is the ONLY thing added: without its step the same prefix leaves request 2
+waiting (the `acq` of the LTS proper is not enabled while request 1 holds the lock) -/
+theorem C01_no_race_no_overlap :
+    (runR (fun _ => false) exR0 (exRace.take 11)).bind (fun s => step (fun _ => false) s (.acq 2)) = none := by rfl
+
 end CM.Issue
